@@ -73,7 +73,14 @@ func PRFByName(n string) *PRF {
 	return nil
 }
 
+// OIDHMACSM3OpenSSL is the identifier OpenSSL (and GM/T 0091-2020) use for HMAC-SM3;
+// PRFs lists 1.2.156.10197.1.401.2 (GM/T 0006 "SM3 with key"), which is what the library writes.
+var OIDHMACSM3OpenSSL = asn1.ObjectIdentifier{1, 2, 156, 10197, 1, 401, 3, 1}
+
 func prfByOID(oid asn1.ObjectIdentifier) *PRF {
+	if oid.Equal(OIDHMACSM3OpenSSL) {
+		return PRFByName("SM3")
+	}
 	for i := range PRFs {
 		if PRFs[i].OID.Equal(oid) {
 			return &PRFs[i]
@@ -288,17 +295,17 @@ type gcmParams struct {
 
 // Info says what a container declared.
 type Info struct {
-	Scheme string // PBES2 | SMPBES | PBES1-MD5-DES | PBES1-SHA1-DES
-	KDF    string // PBKDF2 | SMPBKDF | scrypt | PBKDF1
-	PRF    string
-	Cipher string
-	Salt   []byte
-	Iter   int
+	Scheme  string // PBES2 | SMPBES | PBES1-MD5-DES | PBES1-SHA1-DES
+	KDF     string // PBKDF2 | SMPBKDF | scrypt | PBKDF1
+	PRF     string
+	Cipher  string
+	Salt    []byte
+	Iter    int
 	N, R, P int
-	KeyLen int // declared key length, 0 when absent
-	IV     []byte
-	Key    []byte // derived key
-	Data   []byte // EncryptedData content
+	KeyLen  int // declared key length, 0 when absent
+	IV      []byte
+	Key     []byte // derived key
+	Data    []byte // EncryptedData content
 }
 
 func unmarshalAll(b []byte, v any) error {
